@@ -264,11 +264,13 @@ pub struct Cur<'a> {
     pub pos: usize,
     /// accept any non-1 byte as `false` for bools/tags (what a lenient reader does)
     pub lenient: bool,
+    /// lenient mode: declared lengths that the remaining input cannot encode (declared, remaining, min_elem)
+    pub huge: Vec<(u64, usize, usize)>,
 }
 
 impl<'a> Cur<'a> {
     pub fn new(data: &'a [u8]) -> Cur<'a> {
-        Cur { data, pos: 0, lenient: false }
+        Cur { data, pos: 0, lenient: false, huge: vec![] }
     }
     pub fn remaining(&self) -> usize {
         self.data.len() - self.pos
@@ -296,6 +298,13 @@ impl<'a> Cur<'a> {
             (n as u128) * (min_elem as u128) > rem as u128
         };
         if too_big {
+            if self.lenient && min_elem > 0 {
+                // pre-screening: record the declared length and keep decoding — containers that
+                // do not pre-allocate read elements until the input ends, and one of those may
+                // declare an absurd length of its own
+                self.huge.push((n, rem, min_elem));
+                return Ok(n as usize);
+            }
             return Err(DecErr::HugeLen { declared: n, remaining: rem, min_elem });
         }
         Ok(n as usize)
@@ -395,6 +404,42 @@ impl Universe {
                     }
                 }
                 Leaf::Phantom => Ok(DV::unit()),
+                // pre-screening only (lenient cursor): the bit containers declare their storage size
+                // (u64 bits, u64 bytes with the top bit as a format flag, raw bytes); the value is not
+                // modelled, only "does the input declare more storage than it carries"
+                Leaf::BitVec | Leaf::BitSet | Leaf::BitVec08 | Leaf::BitSet08 if c.lenient => {
+                    let _bits = c.uint(8)?;
+                    let nb = c.uint(8)? as u64;
+                    let n = nb & !(1 << 63);
+                    let rem = c.remaining();
+                    if n as u128 > rem as u128 {
+                        // new format: the library computes n * 8 (capacity in bits)
+                        return Err(DecErr::HugeLen { declared: n, remaining: rem, min_elem: if nb >> 63 == 1 { 8 } else { 1 } });
+                    }
+                    c.take(n as usize)?;
+                    Ok(DV::unit())
+                }
+                // pre-screening only: how many bytes the other leaf types with private encodings
+                // consume (sizes as used by the schema mirror / wire normal form), so that declared
+                // lengths behind them are still found
+                Leaf::Duration | Leaf::SystemTime if c.lenient => c.take(16).map(|_| DV::unit()),
+                Leaf::DateTimeUtc if c.lenient => c.take(8).map(|_| DV::unit()),
+                Leaf::Canary1 if c.lenient => c.take(4).map(|_| DV::unit()),
+                Leaf::IpAddr if c.lenient => match c.uint(1)? {
+                    0 => c.take(4).map(|_| DV::unit()),
+                    1 => c.take(16).map(|_| DV::unit()),
+                    t => Err(DecErr::Invalid(format!("ip tag {}", t))),
+                },
+                Leaf::SocketAddr if c.lenient => match c.uint(1)? {
+                    0 => c.take(2 + 4).map(|_| DV::unit()),
+                    1 => c.take(2 + 16 + 4 + 4).map(|_| DV::unit()),
+                    t => Err(DecErr::Invalid(format!("socket addr tag {}", t))),
+                },
+                Leaf::IoError if c.lenient => {
+                    c.take(2)?;
+                    let n = c.len_prefix(1)?;
+                    c.take(n).map(|_| DV::unit())
+                }
                 other => Err(DecErr::NoExp(format!("private encoding of {:?}", other))),
             },
             Ty::Def(i, args) => {
